@@ -174,30 +174,39 @@ func runC18(r *Run, seed int64, c c18Case) {
 	r.Eval()
 	tag := fmt.Sprintf("%s|%s|%s|csv=%s|%s", c.chain, c.typ, c.watcher, c.csvState, c.stimulus)
 	if !returned {
-		// two dumps one second apart must show the same lock cycle
-		d1 := takeDump()
-		c1, s1 := lockCycle(d1, ptr)
-		k1, t1 := stuckInEvent(d1, ptr)
-		time.Sleep(time.Second)
-		d2 := takeDump()
-		c2, _ := lockCycle(d2, ptr)
-		k2, _ := stuckInEvent(d2, ptr)
-		if c1 != "" && c1 == c2 {
-			r.Violate("no-deadlock", "C18|"+c1+"|"+c.stimulus+"|csv="+c.csvState+"|"+c.watcher, fmt.Sprintf("delivery of %s did not return; the same lock cycle is visible in two goroutine dumps 1 s apart; case %+v seed %d\n%s", c.stimulus, c, seed, s1), traceOf(w))
-		} else if k1 != "" && k1 == k2 {
-			// the holder of the swap mutex is blocked in peerswap's own synchronisation (channel, lock), not in
-			// a service: a third dump must show the same
-			time.Sleep(1500 * time.Millisecond)
-			if k3, _ := stuckInEvent(takeDump(), ptr); k3 == k1 {
-				r.Violate("no-deadlock", "C18|"+k1+"|"+c.stimulus+"|csv="+c.csvState+"|"+c.watcher, fmt.Sprintf("delivery of %s did not return; in three goroutine dumps over 2.5 s the goroutine handling the event sits at the same blocking operation inside peerswap code while holding the swap's mutex; case %+v seed %d\n%s", c.stimulus, c, seed, t1), traceOf(w))
-			} else {
-				r.Inconclusive(fmt.Sprintf("stimulus did not return within the watchdog; blocked position changed between dumps (%q / %q); case %+v", k1, k3, c))
+		// The delivery is still running. No verdict from elapsed time: dumps are taken once a second until the call
+		// returns (slow machine: carry on), or the same lock cycle shows in two consecutive dumps, or the goroutine
+		// handling the event sits at the same blocking operation in peerswap code in three consecutive dumps.
+		// Inconclusive only after 90 s without any of these.
+		var prevC, prevK, prevK2 string
+		verdict := false
+		for round := 0; round < 90 && !returned && !verdict; round++ {
+			d := takeDump()
+			cc, cs := lockCycle(d, ptr)
+			kk, ks := stuckInEvent(d, ptr)
+			switch {
+			case cc != "" && cc == prevC:
+				r.Violate("no-deadlock", "C18|"+cc+"|"+c.stimulus+"|csv="+c.csvState+"|"+c.watcher, fmt.Sprintf("delivery of %s did not return; the same lock cycle is visible in two goroutine dumps 1 s apart; case %+v seed %d\n%s", c.stimulus, c, seed, cs), traceOf(w))
+				verdict = true
+			case kk != "" && kk == prevK && kk == prevK2:
+				r.Violate("no-deadlock", "C18|"+kk+"|"+c.stimulus+"|csv="+c.csvState+"|"+c.watcher, fmt.Sprintf("delivery of %s did not return; in three goroutine dumps 1 s apart the goroutine handling the event sits at the same blocking operation inside peerswap code while holding the swap's mutex; case %+v seed %d\n%s", c.stimulus, c, seed, ks), traceOf(w))
+				verdict = true
 			}
-		} else {
-			r.Inconclusive(fmt.Sprintf("stimulus did not return within the watchdog but no stable lock cycle was found (%q / %q); case %+v", c1, c2, c))
+			prevC, prevK2, prevK = cc, prevK, kk
+			if !verdict {
+				returned = w.WaitIdle(time.Second)
+			}
 		}
-		r.Seen(tag + "/hung")
-		return
+		if verdict {
+			r.Seen(tag + "/hung")
+			return
+		}
+		if !returned {
+			r.Inconclusive(fmt.Sprintf("stimulus did not return within 90 s and no stable lock cycle or blocked position was found; case %+v", c))
+			r.Seen(tag + "/hung")
+			return
+		}
+		r.Count("stimuli_returned_late", 1)
 	}
 	r.Count("stimuli_returned", 1)
 	// afterwards the maker must get to its refund: mine past the CSV and let the real watchers work
